@@ -34,6 +34,8 @@ Strict(a, b) ==
 Verdict(a, b, feq) ==
   CASE (a.t = "nil" /\ a.s # "" /\ b.t \in {"list", "map"}) \/ (b.t = "nil" /\ b.s # "" /\ a.t \in {"list", "map"}) -> "open"   \* a nil slice / map of a concrete type against a container: not stated
     [] a.t = "nil" \/ b.t = "nil" -> IF a.t = b.t THEN "yes" ELSE "no"          \* nil equals only nil (a nil channel, function, slice, map or pointer is nil)
+    [] a.t = "cplx" /\ b.t = "cplx" -> IF a.l = b.l THEN "yes" ELSE "no"          \* complex numbers (host values): same primitive type, Go's ==
+    [] a.t = "cplx" \/ b.t = "cplx" -> "open"
     [] a.t = "bool" /\ b.t = "bool" -> IF a.l = b.l THEN "yes" ELSE "no"
     [] a.t = "bool" \/ b.t = "bool" -> "open"                                     \* bool vs non-bool: not stated
     [] a.t = "str" /\ b.t = "str" -> IF a.s = b.s THEN "yes" ELSE "no"            \* same primitive type: Go's ==
